@@ -637,3 +637,476 @@ Proof.
   - intros v Hne. apply fupd_ne. exact Hne.
   - subst g. rewrite C3. exact F2.
 Qed.
+
+(* ---------- C14: lock_shared and the snapshot operations never wait ---------- *)
+Definition spc (p : pc) : bool :=
+  match p with S_ldc | S_inc | S_ldr | S_dec | SR_rb | SR_re => true | _ => false end.
+Definition is_mutex_kind (k : Z) : bool := (K_LOCK <=? k) && (k <=? K_TRYLOCK_SH_FOR).
+Definition is_blocking_kind (k : Z) : bool :=
+  is_mutex_kind k || (k =? K_CV_SLEEP) || (k =? K_YIELD) || (k =? K_SLEEP).
+Definition is_snapshot_op (o : op) : bool :=
+  match o with LockShared _ _ | ReadSnap _ | DropSnap _ | CopySnap _ _ => true | _ => false end.
+
+(* a thread inside lock_shared / a snapshot read is enabled in every state (reachable or not), under
+   every choice, whatever pc any writer is at *)
+Lemma read_wait_free t c g l : spc (at_ l) = true -> exists r, tstep t c g l = Some r.
+Proof.
+  intros Hp. destruct l as [pr p ws ss s rcn rsd cv0 lr lc tm ed ba nd]. cbn in Hp.
+  destruct p; try discriminate; unfold tstep, rd_begin, rd_end; cbn [at_]; eexists; reflexivity.
+Qed.
+(* ... and so is the invocation of any operation *)
+Lemma invoke_enabled t c g l o r : at_ l = Idle -> prog l = o :: r -> exists r', tstep t c g l = Some r'.
+Proof.
+  intros Hp Hpr. unfold tstep. rewrite Hp, Hpr. unfold touch.
+  destruct o; cbn;
+    repeat match goal with |- context [match ?x with _ => _ end] => destruct x end; eexists; reflexivity.
+Qed.
+
+(* lock_shared is exactly four own steps after its invocation (load countingLeft, increment, load
+   readingLeft + copy of the shared_ptr, decrement), whatever the other threads do in between
+   (g0 .. g3 arbitrary); it returns a snapshot of the version the directed copy held at the third step *)
+Lemma lock_shared_steps t c0 c1 c2 c3 g0 g1 g2 g3 l :
+  at_ l = S_ldc -> nth_error (ssl l) (sl l) = Some None ->
+  exists l1 l2 l3 l4 g1' g2' g3' e0 e1 e2 e3,
+    tstep t c0 g0 l = Some (g0, l1, [e0]) /\ ek e0 = K_LOAD /\ at_ l1 = S_inc /\ rcnt l1 = cl g0 /\
+    tstep t c1 g1 l1 = Some (g1', l2, [e1]) /\ ek e1 = K_RMW /\ at_ l2 = S_ldr /\
+    ctr g1' (cl g0) = ctr g1 (cl g0) + 1 /\
+    tstep t c2 g2 l2 = Some (g2', l3, [e2]) /\ ek e2 = K_LOAD /\ at_ l3 = S_dec /\
+    nth_error (ssl l3) (sl l) =
+      Some (Some (Snap (cvid (cp g2 (rl g2))) (need l) (content (heap g2 (cvid (cp g2 (rl g2))))))) /\
+    tstep t c3 g3 l3 = Some (g3', l4, [e3; ret_ev 0]) /\ ek e3 = K_RMW /\ at_ l4 = Idle /\
+    ctr g3' (cl g0) = ctr g3 (cl g0) - 1 /\ ssl l4 = ssl l3.
+Proof.
+  intros Hp Hn. destruct l as [pr p ws ss s rcn rsd cv0 lr lc tm ed ba nd]. cbn in *. subst p.
+  do 11 eexists. unfold tstep; cbn.
+  repeat (split; [reflexivity|]). split; [|repeat (split; [reflexivity|])].
+  - unfold ctr, set_ctr. destruct (cl g0); reflexivity.
+  - split; [apply (nth_upd_eq _ _ _ _ Hn)|]. repeat (split; [reflexivity|]). split; [|reflexivity].
+    unfold ctr, rd_close, cp. cbn. destruct (cl g0), (rl g2); reflexivity.
+Qed.
+
+Lemma fault_evs_kind v fs e : In e (fault_evs v fs) -> ek e = K_FAULT.
+Proof. unfold fault_evs. intros H. apply in_map_iff in H. destruct H as [c [<- _]]. reflexivity. Qed.
+Ltac ev_kinds Hin :=
+  repeat first [ apply in_app_or in Hin; destruct Hin as [Hin|Hin]
+               | apply fault_evs_kind in Hin; rewrite Hin; reflexivity
+               | destruct Hin as [Hin|Hin]; [subst; reflexivity|]
+               | contradiction ].
+
+(* reader operations perform no mutex operation, never yield or sleep, and leave both mutexes alone *)
+Lemma readers_take_no_mutex t c g l g' l' es :
+  tstep t c g l = Some (g', l', es) ->
+  (spc (at_ l) = true \/ (at_ l = Idle /\ exists o r, prog l = o :: r /\ is_snapshot_op o = true)) ->
+  omtx g' = omtx g /\ imtx g' = imtx g /\ forall e, In e es -> is_blocking_kind (ek e) = false.
+Proof.
+  intros Hs Hp. destruct l as [pr p ws ss s rcn rsd cv0 lr lc tm ed ba nd].
+  destruct p; cbn in Hp; try (destruct Hp as [Hp|[Hp _]]; discriminate).
+  1: destruct Hp as [Hp|[_ (o & r & Hpr & Ho)]]; [discriminate|]; subst pr; destruct o; try discriminate.
+  all: step_cases Hs; unfold rd_open, rd_close; cbn; autorewrite with cow; splits; auto;
+       intros e Hin; cbn in Hin; ev_kinds Hin.
+Qed.
+
+(* ---------- C14: the writer waits only for readers that are inside lock_shared / lock() ---------- *)
+(* the counter a drain loop waits for *)
+Definition awaits (l : loc) : option bool :=
+  match at_ l with
+  | W_d1 | W_y1 => Some (negb (lcl l))
+  | W_d2 | W_y2 => Some (lcl l)
+  | _ => None
+  end.
+(* once the awaited counter is zero the next load leaves the loop *)
+Lemma writer_drain_exits t c g l :
+  (at_ l = W_d1 \/ at_ l = W_d2) -> (forall k, awaits l = Some k -> ctr g k = 0) ->
+  exists g' l' es, tstep t c g l = Some (g', l', es) /\
+                   at_ l' = (match at_ l with W_d1 => W_stc | _ => W_unlock end).
+Proof.
+  intros Hp Hz. destruct l as [pr p ws ss s rcn rsd cv0 lr lc tm ed ba nd]. unfold awaits in Hz. cbn in *.
+  destruct Hp; subst p; unfold tstep; cbn; rewrite (Hz _ eq_refl); cbn; do 3 eexists; split; reflexivity.
+Qed.
+(* while a writer is in a drain loop, m_countingLeft designates the counter it is NOT waiting for:
+   readers that arrive register elsewhere *)
+Lemma new_readers_other_counter nw ns x pl progs s w lw k :
+  R nw ns x pl progs s -> nth_error (thr s) w = Some lw -> awaits lw = Some k -> cl (gl s) = negb k.
+Proof.
+  intros HR Hw Ha. pose proof (R_inv _ _ _ _ _ _ HR) as HI.
+  assert (Hh : ipc (at_ lw) = true) by (unfold awaits in Ha; destruct (at_ lw); try discriminate; reflexivity).
+  pose proof (I_w _ _ HI _ _ Hw Hh) as Hwok. unfold wok in Hwok. unfold awaits in Ha.
+  destruct (at_ lw); try discriminate; inversion Ha; subst; destr_and; try congruence.
+  all: rewrite negb_involutive; congruence.
+Qed.
+Lemma counters_count nw ns x pl progs s k :
+  R nw ns x pl progs s -> ctr (gl s) k = Z.of_nat (list_sum (map (reg k) (thr s))).
+Proof. intros HR. apply (I_cnt _ _ (R_inv _ _ _ _ _ _ HR)). Qed.
+Lemma sum_pos_ex {A} (f : A -> nat) (l : list A) :
+  (0 < list_sum (map f l))%nat -> exists u x, nth_error l u = Some x /\ (0 < f x)%nat.
+Proof.
+  induction l as [|a r IH]; unfold list_sum; cbn; intros H; [lia|].
+  destruct (f a) eqn:E.
+  - destruct (IH H) as (u & x & Hu & Hx). exists (S u), x. auto.
+  - exists O, a. split; [reflexivity|lia].
+Qed.
+(* a non-zero counter means a thread between its increment and its decrement INSIDE lock_shared or lock():
+   a snapshot that is merely held is registered nowhere *)
+Lemma spinning_means_registered nw ns x pl progs s k :
+  R nw ns x pl progs s -> ctr (gl s) k <> 0 ->
+  exists u lu, nth_error (thr s) u = Some lu /\ rgpc (at_ lu) = true /\ rcnt lu = k.
+Proof.
+  intros HR Hnz. pose proof (counters_count _ _ _ _ _ _ k HR) as E.
+  destruct (sum_pos_ex (reg k) (thr s)) as (u & lu & Hu & Hpos); [lia|].
+  exists u, lu. split; [exact Hu|]. unfold reg in Hpos.
+  destruct (rgpc (at_ lu)); [|cbn in Hpos; lia]. split; [reflexivity|].
+  destruct (Bool.eqb (rcnt lu) k) eqn:Eb; [|cbn in Hpos; lia]. apply eqb_prop in Eb. exact Eb.
+Qed.
+(* ... and such a thread can always move (in any state) until it has deregistered *)
+Lemma registered_enabled t c g l : rgpc (at_ l) = true -> exists r, tstep t c g l = Some r.
+Proof.
+  intros Hp. destruct l as [pr p ws ss s rcn rsd cv0 lr lc tm ed ba nd]. cbn in Hp.
+  destruct p; try discriminate; unfold tstep, rd_begin, rd_end, touch; cbn [at_];
+    try (destruct (zmem _ _)); eexists; reflexivity.
+Qed.
+Lemma held_snapshot_not_registered l k : at_ l = Idle -> reg k l = O /\ rdo k l = O.
+Proof. intros Hp. unfold reg, rdo. rewrite Hp. split; reflexivity. Qed.
+
+(* the owner of the outer mutex inside lock() / release / cancel can always move *)
+Lemma owner_enabled nw ns x pl progs s a la c :
+  R nw ns x pl progs s -> nth_error (thr s) a = Some la -> opc (at_ la) = true -> enabledR s a c.
+Proof.
+  intros HR Hl Hp. pose proof (R_inv _ _ _ _ _ _ HR) as HI.
+  assert (exists r, tstep a c (gl s) la = Some r) as [r Hr]; [|exists la, r; auto].
+  destruct (at_ la) eqn:Ep; try discriminate; unfold tstep; rewrite Ep;
+    unfold rd_begin, rd_end, touch; try (eexists; reflexivity).
+  - destruct (zmem _ _); eexists; reflexivity.
+  - (* W_lock: the inner mutex is free, because whoever holds it owns the outer one *)
+    destruct (imtx (gl s)) as [b|] eqn:Em; [exfalso|eexists; reflexivity].
+    destruct (I_iheld _ _ HI _ Em) as [lb [Hb Hi]].
+    assert (Eo : owns la = true) by (unfold owns; rewrite Ep; reflexivity).
+    assert (Eb : owns lb = true) by (unfold owns; rewrite (ipc_opc _ Hi); reflexivity).
+    pose proof (I_oown _ _ HI _ _ Hl Eo). pose proof (I_oown _ _ HI _ _ Hb Eb).
+    assert (b = a) by congruence. subst b. assert (lb = la) by congruence. subst lb. rewrite Ep in Hi. discriminate.
+  - destruct (_ =? 0); eexists; reflexivity.
+  - destruct (_ =? 0); eexists; reflexivity.
+Qed.
+
+(* when nothing can move, every thread has finished, or waits in lock() for a write handle that its
+   holder will never release (the holder has finished, or has re-entered lock() itself) *)
+Lemma quiescent_shape nw ns x pl progs s :
+  R nw ns x pl progs s -> quiescent glob loc tstep s ->
+  forall u l, nth_error (thr s) u = Some l ->
+    fin l = true \/
+    (at_ l = L_lock /\ exists a la, omtx (gl s) = Some a /\ nth_error (thr s) a = Some la /\
+                         hasw (wsl la) = true /\ (fin la = true \/ at_ la = L_lock)).
+Proof.
+  intros HR HQ u l Hl. pose proof (R_inv _ _ _ _ _ _ HR) as HI.
+  assert (Hdis : forall v lv, nth_error (thr s) v = Some lv -> tstep v 0 (gl s) lv = None).
+  { intros v lv Hv. destruct (tstep v 0 (gl s) lv) as [r|] eqn:Hs; [exfalso|reflexivity].
+    apply (HQ v 0%nat); [lia|]. exists lv, r. auto. }
+  assert (Hblocked : forall v lv, nth_error (thr s) v = Some lv -> fin lv = true \/ at_ lv = L_lock).
+  { intros v lv Hv. pose proof (Hdis _ _ Hv) as Hs.
+    destruct (opc (at_ lv)) eqn:Eo.
+    { exfalso. destruct (owner_enabled _ _ _ _ _ _ _ _ 0%nat HR Hv Eo) as (l0 & r0 & E0 & E1). congruence. }
+    destruct lv as [pr p ws ss s0 rcn rsd cv0 lr lc tm ed ba nd]. cbn in Eo.
+    destruct p; try discriminate; auto; unfold tstep, rd_begin, rd_end in Hs; cbn [at_ prog] in Hs; try discriminate.
+    destruct pr as [|o r0]; [left; reflexivity|exfalso].
+    destruct (invoke_enabled v 0%nat (gl s) (Loc (o :: r0) Idle ws ss s0 rcn rsd cv0 lr lc tm ed ba nd) o r0 eq_refl eq_refl) as [r' Hr'].
+    unfold tstep in Hr'. cbn [at_ prog] in Hr'. congruence. }
+  destruct (Hblocked _ _ Hl) as [Hf|Hp]; [left; exact Hf|right]. split; [exact Hp|].
+  pose proof (Hdis _ _ Hl) as Hs. unfold tstep in Hs. rewrite Hp in Hs.
+  destruct (omtx (gl s)) as [a|] eqn:Em; [|discriminate].
+  destruct (I_oheld _ _ HI _ Em) as [la [Ha Hown]]. exists a, la. repeat split; auto.
+  - unfold owns in Hown. destruct (opc (at_ la)) eqn:Eo; [exfalso|exact Hown].
+    destruct (owner_enabled _ _ _ _ _ _ _ _ 0%nat HR Ha Eo) as (l0 & r0 & E0 & E1).
+    pose proof (Hdis _ _ Ha). congruence.
+  - apply (Hblocked _ _ Ha).
+Qed.
+(* in particular: when every write handle has been released or cancelled, nothing can be stuck *)
+Lemma commit_completes nw ns x pl progs s :
+  R nw ns x pl progs s -> quiescent glob loc tstep s ->
+  (forall u l, nth_error (thr s) u = Some l -> hasw (wsl l) = false) ->
+  all_fin glob loc fin s = true.
+Proof.
+  intros HR HQ Hno. unfold all_fin. apply forallb_forall. intros l Hin. apply In_nth_error in Hin. destruct Hin as [u Hl].
+  destruct (quiescent_shape _ _ _ _ _ _ HR HQ _ _ Hl) as [Hf|(_ & a & la & _ & Ha & Hw & _)]; [exact Hf|].
+  rewrite (Hno _ _ Ha) in Hw. discriminate.
+Qed.
+
+(* bounded work: every step decreases the measure, except a drain-loop load that sees a non-zero counter *)
+Definition wpc (p : pc) : nat :=
+  match p with
+  | Idle => 0
+  | L_lock => 20 | L_ldc => 19 | L_inc => 18 | L_ldr => 17 | L_call => 16 | L_rb => 15 | L_re => 14 | L_dec => 13
+  | X_dec => 2 | X_unlock => 1
+  | HW_wb => 2 | HW_we => 1 | HI_rb => 4 | HI_re => 3 | HI_wb => 2 | HI_we => 1 | HR_rb => 2 | HR_re => 1
+  | W_lock => 12 | W_ldr => 11 | W_str => 10 | W_ldc => 9 | W_y1 => 8 | W_d1 => 7 | W_stc => 6 | W_y2 => 5 | W_d2 => 4
+  | W_unlock => 3 | W_ounlock => 2
+  | C_unlock => 1
+  | S_ldc => 4 | S_inc => 3 | S_ldr => 2 | S_dec => 1 | SR_rb => 2 | SR_re => 1
+  end%nat.
+Definition wloc (l : loc) : nat := (21 * length (prog l) + wpc (at_ l))%nat.
+Definition mu (s : sysR) : nat := list_sum (map wloc (thr s)).
+Definition is_retry (g : glob) (l : loc) : bool :=
+  match at_ l with
+  | W_d1 => negb (ctr g (negb (lcl l)) =? 0)
+  | W_d2 => negb (ctr g (lcl l) =? 0)
+  | _ => false
+  end.
+Lemma wloc_step t c g l g' l' es : tstep t c g l = Some (g', l', es) ->
+  if is_retry g l then wloc l' = S (wloc l) else (wloc l' < wloc l)%nat.
+Proof.
+  intros Hs. destruct l as [pr p ws ss s rcn rsd cv0 lr lc tm ed ba nd].
+  destruct p; step_cases Hs; unfold is_retry, wloc; cbn [at_ prog lcl length wpc set_at set_tmp set_cv set_rcnt set_lrl set_lcl set_wsl set_ssl set_ced];
+    try match goal with H : (_ =? 0) = _ |- _ => rewrite H end; cbn [negb]; try lia.
+  all: cbn [lcl] in *; match goal with H : (?a =? 0) = _ |- _ => rewrite H; cbn; lia end.
+Qed.
+Fixpoint work_retries (s : sysR) (sc : list (nat * nat)) : nat * nat :=
+  match sc with
+  | [] => (O, O)
+  | tc :: r =>
+    let wq := work_retries (stepR s tc) r in
+    match nth_error (thr s) (fst tc) with
+    | Some l =>
+      match tstep (fst tc) (snd tc) (gl s) l with
+      | Some _ => if is_retry (gl s) l then (fst wq, S (snd wq)) else (S (fst wq), snd wq)
+      | None => wq
+      end
+    | None => wq
+    end
+  end.
+Lemma bounded_work sc : forall s : sysR,
+  (fst (work_retries s sc) + mu (runR s sc) <= mu s + snd (work_retries s sc))%nat.
+Proof.
+  induction sc as [|[t c] r IH]; intros s; cbn [work_retries run fold_left fst snd]; [lia|].
+  specialize (IH (stepR s (t, c))). unfold run in IH.
+  unfold step, sys_step in *. destruct (nth_error (thr s) t) as [l|] eqn:Hl; [|cbn in *; exact IH].
+  destruct (tstep t c (gl s) l) as [[[g' l'] es]|] eqn:Hs; [|cbn in *; exact IH].
+  cbn [fst] in *. pose proof (wloc_step _ _ _ _ _ _ _ Hs) as Hw.
+  pose proof (sum_upd wloc (thr s) t l l' Hl) as E.
+  unfold mu at 2. unfold mu at 2 in IH. cbn [thr gl] in IH.
+  destruct (is_retry (gl s) l); cbn [fst snd]; lia.
+Qed.
+(* a drain loop goes round only while some thread is registered in the awaited counter *)
+Lemma retry_means_registered nw ns x pl progs s w lw :
+  R nw ns x pl progs s -> nth_error (thr s) w = Some lw -> is_retry (gl s) lw = true ->
+  exists k, awaits lw = Some k /\ ctr (gl s) k <> 0 /\
+  exists u lu, nth_error (thr s) u = Some lu /\ rgpc (at_ lu) = true /\ rcnt lu = k.
+Proof.
+  intros HR Hw Hr. unfold is_retry in Hr. unfold awaits.
+  destruct (at_ lw); try discriminate; apply negb_true_iff, Z.eqb_neq in Hr;
+    eexists; (split; [reflexivity|]); (split; [exact Hr|]); apply (spinning_means_registered _ _ _ _ _ _ _ HR Hr).
+Qed.
+
+(* ---------- C20: a throwing copy in lock() ---------- *)
+(* the path of the exception: the throwing call, the release of the inner read registration (~data),
+   the release of the outer mutex (~guard), in that order; then the operation ends by exception *)
+Lemma throw_path t c g l g' l' es : tstep t c g l = Some (g', l', es) ->
+  match at_ l with
+  | L_call => if zmem (calls g) (plan g)
+              then at_ l' = X_dec /\ In (E K_THROW 0 (calls g)) es /\ heap g' = heap g /\ omtx g' = omtx g
+              else at_ l' = L_rb
+  | X_dec => at_ l' = X_unlock /\ ctr g' (rcnt l) = ctr g (rcnt l) - 1 /\ omtx g' = omtx g /\ heap g' = heap g /\
+             es = [ESC K_RMW (o_ctr (rcnt l)) (ctr g (rcnt l) - 1)]
+  | X_unlock => at_ l' = Idle /\ omtx g' = None /\ heap g' = heap g /\ es = [E K_UNLOCK O_OM 0; E K_CATCH 0 0]
+  | _ => True
+  end.
+Proof.
+  intros Hs. destruct l as [pr p ws ss s rcn rsd cv0 lr lc tm ed ba nd].
+  destruct p; try exact I; step_cases Hs; cbn; unfold rd_close, ctr, cp; cbn;
+    try match goal with H : zmem _ _ = _ |- _ => rewrite H end; auto.
+  all: repeat split; auto; destruct rcn, rsd; reflexivity.
+Qed.
+(* the state in which the exception leaves lock(): the thread owns no mutex, holds no handle, is registered
+   in no counter, has no window open; the committed version, both copies and every version are untouched,
+   no version was created *)
+Lemma lock_copy_throw nw ns x pl progs s t c l g' l' es :
+  R nw ns x pl progs s -> nth_error (thr s) t = Some l -> at_ l = X_unlock ->
+  tstep t c (gl s) l = Some (g', l', es) ->
+  let g := gl s in
+  omtx g = Some t /\ omtx g' = None /\ imtx g' = imtx g /\ committed g' = committed g /\
+  cleft g' = cleft g /\ cright g' = cright g /\ heap g' = heap g /\ next g' = next g /\
+  at_ l' = Idle /\ owns l' = false /\ wsl l' = wsl l /\ ssl l' = ssl l /\
+  (forall k, reg k l' = O /\ rdo k l' = O /\ reg k l = O /\ rdo k l = O) /\
+  es = [E K_UNLOCK O_OM 0; E K_CATCH 0 0].
+Proof.
+  intros HR Hl Hp Hs g. pose proof (R_inv _ _ _ _ _ _ HR) as HI.
+  assert (Eo : owns l = true) by (unfold owns; rewrite Hp; reflexivity).
+  destruct (I_loc _ _ HI _ _ Hl) as [(_ & Hn0 & _) _]. rewrite Hp in Hn0. specialize (Hn0 eq_refl).
+  unfold tstep in Hs. rewrite Hp in Hs. injection Hs as Eg El Ee. subst g' l' es. fold g.
+  splits; auto; try reflexivity.
+  - apply (I_oown _ _ HI _ _ Hl Eo).
+  - unfold owns. cbn. apply hasw_false. exact Hn0.
+  - intros k. unfold reg, rdo. cbn. rewrite Hp. cbn. auto.
+Qed.
+(* the object stays usable: a free outer mutex can be taken by whoever asks *)
+Lemma lock_enabled_when_free t c g l : at_ l = L_lock -> omtx g = None -> exists r, tstep t c g l = Some r.
+Proof. intros Hp Hm. unfold tstep. rewrite Hp, Hm. eexists. reflexivity. Qed.
+(* a thread back at top level without a write handle owns nothing *)
+Lemma nonowner_owns_nothing nw ns x pl progs s t l :
+  R nw ns x pl progs s -> nth_error (thr s) t = Some l -> owns l = false ->
+  omtx (gl s) <> Some t /\ imtx (gl s) <> Some t.
+Proof.
+  intros HR Hl Ho. pose proof (R_inv _ _ _ _ _ _ HR) as HI. split; intros Hm.
+  - destruct (I_oheld _ _ HI _ Hm) as [l0 [E0 H0]]. congruence.
+  - destruct (I_iheld _ _ HI _ Hm) as [l0 [E0 H0]]. assert (l0 = l) by congruence. subst l0.
+    unfold owns in Ho. rewrite (ipc_opc _ H0) in Ho. discriminate.
+Qed.
+
+(* no fault is ever logged: no payload window overlaps a write window, no destroyed version is used;
+   and (ghost) no conflicting shared_ptr accesses, no double destruction *)
+Lemma no_fault nw ns x pl progs s : R nw ns x pl progs s -> faults (gl s) = O /\ races (gl s) = O.
+Proof. intros HR. apply (I_nofault _ _ (R_inv _ _ _ _ _ _ HR)). Qed.
+
+(* exclusion on the two copies of the inner lr_guarded (C03 technique): a reader window and a writer window
+   are never open on the same copy *)
+Definition wr_window (l : loc) (x : bool) : Prop :=
+  (at_ l = W_str /\ x = negb (lrl l)) \/ (at_ l = W_unlock /\ x = lrl l).
+Definition rd_window (l : loc) (x : bool) : Prop := rwpc (at_ l) = true /\ rside l = x.
+Lemma inner_exclusion nw ns x pl progs s r lr w lw y :
+  R nw ns x pl progs s -> nth_error (thr s) r = Some lr -> nth_error (thr s) w = Some lw ->
+  wr_window lw y -> ~ rd_window lr y.
+Proof.
+  intros HR Hr Hw Hy [Hp Hs]. pose proof (R_inv _ _ _ _ _ _ HR) as HI.
+  pose proof (I_rw _ _ HI _ _ Hr Hp) as Hk. unfold hok in Hk.
+  assert (Hi : ipc (at_ lw) = true) by (destruct Hy as [[-> _]|[-> _]]; reflexivity).
+  pose proof (I_w _ _ HI _ _ Hw Hi) as Hwk. unfold wok in Hwk.
+  destruct Hy as [[Ep Ey]|[Ep Ey]]; rewrite Ep in Hwk.
+  - destruct Hwk as (E1 & E2 & _). rewrite E2 in Hk. subst y. rewrite Hk in Hs. rewrite <- E1 in Hs.
+    destruct (lrl lw); discriminate.
+  - destruct Hwk as (E1 & E2 & _). rewrite E2 in Hk. subst y. rewrite Hk, E1 in Hs.
+    destruct (rl (gl s)); discriminate.
+Qed.
+
+(* ---------- C04: the version ledger ---------- *)
+(* second layer: a version that exists and is not destroyed is referenced (by a copy or a snapshot) or is
+   the private version of the thread that owns the outer mutex *)
+Definition ppc (p : pc) : bool := match p with L_dec | W_lock | W_ldr | C_unlock => true | _ => false end.
+Definition pown (l : loc) (v : nat) : Prop := In (Some v) (wsl l) \/ (cv l = v /\ ppc (at_ l) = true).
+Definition live (g : glob) (ls : list loc) : Prop :=
+  forall v, (v < next g)%nat -> freed (heap g v) = false ->
+    (1 <= refs (heap g v))%nat \/ exists a l, nth_error ls a = Some l /\ pown l v.
+
+Lemma version_step t c g l g' l' es v :
+  tstep t c g l = Some (g', l', es) -> lok l -> (owns l = true -> ook g l) ->
+  (forall x, (1 <= refs (heap g (cvid (cp g x))))%nat) ->
+  (v < next g')%nat -> freed (heap g' v) = false ->
+  ((v < next g)%nat /\ freed (heap g v) = false /\
+   ((1 <= refs (heap g v))%nat -> (1 <= refs (heap g' v))%nat) /\
+   (pown l v -> pown l' v \/ (1 <= refs (heap g' v))%nat)) \/
+  (v = next g /\ pown l' v).
+Proof.
+  intros Hs (Hn1 & Hn0 & Hk) Hok Hcp Hlt Hf.
+  pose proof (Hcp true) as Hcp1. pose proof (Hcp false) as Hcp0.
+  destruct l as [pr p ws ss s rcn rsd cv0 lr lc tm ed ba nd]. set (PC := p).
+  destruct p; step_cases Hs; unfold owns, pown in *; cbn in Hk, Hn0, Hok.
+  all: try (specialize (Hn0 eq_refl)); try (specialize (Hok eq_refl)).
+  all: try (destruct Hok as (A & B & C); cbn in C; unfold pvok in C; destr_and).
+  all: unfold rd_open, rd_close, wr_close, cp in *; cbn in *; autorewrite with cow in *; cbn in *.
+  all: try (left; splits; solve [auto | intros [Hin|[? ?]]; [auto|discriminate] | intros [Hin|[? ?]]; auto]).
+  all: try (assert (Hno : forall w, ~ In (Some w) ws) by (intros w; apply nwhl_zero_noin; exact Hn0)).
+  all: try match goal with H : nth_error ?w ?i = Some (Some ?n) |- context [In _ ?w] =>
+             assert (Huq : forall w0, In (Some w0) w -> w0 = n) by (intros w0 Hw0; eapply nwhl_one_unique; eauto) end.
+  all: try match goal with
+           | Ha : nth_error ?w ?a = Some (Some ?h), Hb : nth_error ?w ?b = Some None |- context [upd (upd ?w ?b ?x) ?a _] =>
+               assert (a <> b) as Hab by (intros ->; congruence);
+               assert (In (Some h) (upd (upd w b x) a None))
+                 by (apply (nth_error_In _ b); rewrite nth_upd_ne by auto; apply (nth_upd_eq _ _ _ _ Hb))
+           end.
+  all: try (assert (In (Some cv0) (upd ws s (Some cv0))) by (apply (nth_error_In _ s), (nth_upd_eq _ _ _ _ Hk))).
+  all: try (destruct (Nat.eq_dec v (next g)) as [Evn|Evn]; [right; subst v; split; [reflexivity|right; split; reflexivity]|]).
+  all: try (left; heapsimp; eqbs; cbn in *; try (destruct (rl g)); try (destruct lr); cbn in *; rewrite ?orb_false_iff in *;
+            splits; try lia; try tauto;
+            solve [auto | lia | congruence | discriminate
+                  | intros [Hin|[? ?]]; solve [auto | discriminate | exfalso; eapply Hno; eauto | subst; auto | right; lia | left; left; auto
+                                               | rewrite (Huq _ Hin) in *; auto | rewrite (Huq _ Hin) in *; left; right; auto]
+                  | intuition (auto; try lia; try congruence)]).
+Qed.
+
+Lemma live_init nw ns x pl progs : live (gl (init nw ns x pl progs)) (thr (init nw ns x pl progs)).
+Proof. intros v Hlt Hf. cbn in *. left. assert (v = O) by lia. subst v. cbn. lia. Qed.
+
+Lemma live_step g ls t c l g' l' es :
+  Inv g ls -> nth_error ls t = Some l -> tstep t c g l = Some (g', l', es) -> live g ls -> live g' (upd ls t l').
+Proof.
+  intros HI Hl Hs HL v Hlt Hf.
+  destruct (I_loc _ _ HI _ _ Hl) as [Hk _].
+  destruct (version_step _ _ _ _ _ _ _ v Hs Hk (fun E => I_ook _ _ HI _ _ Hl E) (copy_counted _ _ HI) Hlt Hf)
+    as [(V1 & V2 & V3 & V4)|(V1 & V2)].
+  - destruct (HL v V1 V2) as [Hr|(a & la & Ha & Hp)]; [left; auto|].
+    destruct (Nat.eq_dec a t) as [->|Hne].
+    + assert (la = l) by congruence. subst la. destruct (V4 Hp) as [Hp'|Hr]; [right|left; exact Hr].
+      exists t, l'. split; [apply (nth_upd_eq _ _ _ _ Hl)|exact Hp'].
+    + right. exists a, la. split; [rewrite nth_upd_ne by auto; exact Ha|exact Hp].
+  - right. exists t, l'. split; [apply (nth_upd_eq _ _ _ _ Hl)|exact V2].
+Qed.
+Lemma R_live nw ns x pl progs s : R nw ns x pl progs s -> live (gl s) (thr s).
+Proof.
+  intros [sc ->].
+  assert (H : forall sc s, Inv (gl s) (thr s) -> live (gl s) (thr s) -> live (gl (runR s sc)) (thr (runR s sc))).
+  { clear. induction sc as [|tc sc IH]; intros s HI Hn; cbn [run fold_left]; [exact Hn|].
+    apply IH.
+    - apply (step_inv glob loc tstep Inv Inv_step); exact HI.
+    - unfold step, sys_step. destruct tc as [t c]. destruct (nth_error (thr s) t) as [l|] eqn:Hl; [|exact Hn].
+      destruct (tstep t c (gl s) l) as [[[g' l'] es]|] eqn:Hs; [|exact Hn]. cbn. eapply live_step; eauto. }
+  apply H; [apply Inv_init|apply live_init].
+Qed.
+
+(* every version that exists and is not destroyed is accounted for *)
+Lemma version_accounted nw ns x pl progs s v :
+  R nw ns x pl progs s -> (v < next (gl s))%nat -> freed (heap (gl s) v) = false ->
+  (1 <= refs (heap (gl s) v))%nat \/ exists a l, nth_error (thr s) a = Some l /\ pown l v.
+Proof. intros HR. apply (R_live _ _ _ _ _ _ HR). Qed.
+(* ... and a referenced version is referenced by one of the two copies or by a held snapshot *)
+Lemma refs_exact nw ns x pl progs s v :
+  R nw ns x pl progs s -> refs (heap (gl s) v) = (cpc (gl s) v + list_sum (map (snc v) (thr s)))%nat.
+Proof. intros HR. apply (I_refs _ _ (R_inv _ _ _ _ _ _ HR)). Qed.
+
+(* at rest (every thread between operations, no write handle, no snapshot): exactly the committed version
+   is alive; every other version that was ever created has been destroyed *)
+Definition at_rest (l : loc) : Prop :=
+  at_ l = Idle /\ nwhl (wsl l) = O /\ forall sn, ~ In (Some sn) (ssl l).
+Lemma versions_at_rest nw ns x pl progs s :
+  R nw ns x pl progs s -> (forall u l, nth_error (thr s) u = Some l -> at_rest l) ->
+  omtx (gl s) = None /\ imtx (gl s) = None /\ created (gl s) = Z.of_nat (next (gl s)) /\
+  forall v, (v < next (gl s))%nat -> (freed (heap (gl s) v) = false <-> v = committed (gl s)).
+Proof.
+  intros HR Hrest. pose proof (R_inv _ _ _ _ _ _ HR) as HI. pose proof (I_heap _ _ HI) as Hh.
+  assert (Ho : omtx (gl s) = None).
+  { destruct (omtx (gl s)) as [a|] eqn:E; [exfalso|reflexivity]. destruct (I_oheld _ _ HI _ E) as [la [Ha Hown]].
+    destruct (Hrest _ _ Ha) as (P & N & _). unfold owns in Hown. rewrite P in Hown. cbn in Hown.
+    apply hasw_true in Hown. lia. }
+  assert (Him : imtx (gl s) = None).
+  { destruct (imtx (gl s)) as [a|] eqn:E; [exfalso|reflexivity]. destruct (I_iheld _ _ HI _ E) as [la [Ha Hi]].
+    destruct (Hrest _ _ Ha) as (P & _). rewrite P in Hi. discriminate. }
+  destruct (copies_committed_when_idle _ _ _ _ _ _ HR Him) as [CL CR].
+  splits; auto. { apply (H_cre _ Hh). }
+  intros v Hlt. split.
+  - intros Hf. destruct (version_accounted _ _ _ _ _ _ _ HR Hlt Hf) as [Hr|(a & la & Ha & Hp)].
+    + rewrite (refs_exact _ _ _ _ _ _ v HR) in Hr.
+      assert (Z0 : list_sum (map (snc v) (thr s)) = O).
+      { apply all_zero_sum. intros u lu Hu. destruct (Hrest _ _ Hu) as (_ & _ & Hs). unfold snc.
+        apply all_zero_sum. intros i o Hi. destruct o as [sn|]; [|reflexivity]. destruct (Hs sn (nth_error_In _ _ Hi)). }
+      rewrite Z0 in Hr. unfold cpc in Hr. rewrite CL, CR in Hr.
+      destruct (Nat.eqb_spec (committed (gl s)) v); [auto|cbn in Hr; lia].
+    + exfalso. destruct (Hrest _ _ Ha) as (P & N & _). destruct Hp as [Hin|[_ Hpp]].
+      * apply (nwhl_zero_noin _ _ N Hin).
+      * rewrite P in Hpp. discriminate.
+  - intros ->. destruct (freed (heap (gl s) (committed (gl s)))) eqn:E; [exfalso|reflexivity].
+    pose proof (H_freed _ Hh _ E) as Z1. pose proof (copy_counted _ _ HI true) as C1. unfold cp in C1. rewrite CL in C1. lia.
+Qed.
+
+(* ---------- names used by the multi-component properties (C14, C20) ---------- *)
+Definition cow_read_wait_free := read_wait_free.
+Definition cow_invoke_enabled := invoke_enabled.
+Definition cow_lock_shared_steps := lock_shared_steps.
+Definition cow_readers_take_no_mutex := readers_take_no_mutex.
+Definition cow_writer_drain_exits := writer_drain_exits.
+Definition cow_new_readers_other_counter := new_readers_other_counter.
+Definition cow_spinning_means_registered := spinning_means_registered.
+Definition cow_registered_enabled := registered_enabled.
+Definition cow_owner_enabled := owner_enabled.
+Definition cow_quiescent_shape := quiescent_shape.
+Definition cow_commit_completes := commit_completes.
+Definition cow_bounded_work := bounded_work.
+Definition cow_retry_means_registered := retry_means_registered.
+Definition cow_throw_path := throw_path.
+Definition cow_lock_copy_throw := lock_copy_throw.
+Definition cow_lock_enabled_when_free := lock_enabled_when_free.
+Definition cow_nonowner_owns_nothing := nonowner_owns_nothing.
